@@ -12,7 +12,9 @@ from vt import core
 PROP = 'C13'
 RULE = ('extract_components sizes in [1..4]^<=3; compute_jth_combination l,n<=4; ..._without_replacement n<=7; '
         'permutation prefixes n<=6; permutations/prefixes with uniform copies q<=4,m<=3 and per-element counters in '
-        '[0..3]^q (q<=3 quick, <=4 thorough), every prefix length, every index; memo histories depth<=3. '
+        '[0..3]^q (q<=3 quick, <=4 thorough), every prefix length, every index; memo histories depth<=3; n_choose_m for every n<=80 (thorough 140) and m, and '
+        'count_permutations_with_copies q,m<=6, against exact integer arithmetic (spaces too large to enumerate: counts only, plus unranking at '
+        'both ends and the middle). '
         'Non-trivial = N>=2. The "larger random tuples" of the quantifier are sampling and not part of this check.')
 ASSUMPTIONS = ['itertools-based brute-force definitions of each arrangement kind']
 BUDGET_S = {'quick': 120, 'thorough': 900}
@@ -48,6 +50,9 @@ def items(tier, seed):
             out.append({'fn': 'perm_varying', 'q': q, 'counters': list(counters)})
             for first_n in range(1, tot + 1):
                 out.append({'fn': 'prefix_copies', 'q': q, 'm': list(counters), 'first_n': first_n})
+    # counts beyond what can be enumerated: exact integer arithmetic against Pascal's triangle / the multinomial formula
+    for lo in range(0, 81 if not th else 141, 20):
+        out.append({'fn': 'counts_exact', 'lo': lo, 'hi': lo + 20})
     for q, m in [(2, 1), (2, 2), (3, 1), (3, 2), (2, [2, 1]), (3, [1, 2, 1]), (3, [2, 0, 2])] + ([(2, 3), (4, 1), (3, [3, 1, 2])] if th else []):
         out.append({'fn': 'memo_histories', 'q': q, 'm': m, 'depth': 3})
     return out
@@ -95,6 +100,44 @@ def run_item(item):
     fn = item['fn']
     sig = {'fn': fn}
     st = [0, 0]
+    if fn == 'counts_exact':
+        viols = []
+        row = [1]
+        for n in range(0, item['hi']):
+            if n:
+                row = [1] + [row[i] + row[i + 1] for i in range(len(row) - 1)] + [1]
+            if n < item['lo']:
+                continue
+            for m in range(0, n + 1):
+                st[0] += 1
+                got = C.n_choose_m(n, m)
+                if got != row[m] or not isinstance(got, int):
+                    viols.append(core.viol('count_wrong', dict(sig, which='n_choose_m'), n=n, m=m, got=str(got), expected=str(row[m])))
+                    break
+                if m and 30 <= n and m in (1, n // 2, n - 1):
+                    # unranking at the ends and in the middle of a space too large to enumerate: well-formed and pairwise distinct
+                    N = row[m]
+                    seen = {}
+                    for j in sorted(j for j in {0, 1, N // 2, N // 2 + 1, N - 2, N - 1} if 0 <= j < N):
+                        st[1] += 1
+                        c = C.compute_jth_combination_without_replacement(n, m, j)
+                        if len(c) != m or len(set(c)) != m or any(not (0 <= x < n) for x in c) or tuple(sorted(c)) in seen:
+                            viols.append(core.viol('unranked_combination_malformed', dict(sig, which='comb_wo_repl'), n=n, m=m, j=str(j), got=list(c),
+                                                   same_as=str(seen.get(tuple(sorted(c))))))
+                            break
+                        seen[tuple(sorted(c))] = j
+        for q in range(1, 7):
+            for m in range(1, 7):
+                if not (item['lo'] <= q * m < item['hi']):
+                    continue
+                st[0] += 1
+                exp = factorial(q * m) // (factorial(m) ** q)
+                got = C.count_permutations_with_copies(q, m, q * m)
+                if got != exp:
+                    viols.append(core.viol('count_wrong', dict(sig, which='permutations_with_copies'), q=q, m=m, got=str(got), expected=str(exp)))
+        if viols:
+            return core.bad(viols[:4], states=st[0], transitions=st[1], nontrivial=True, outcome=[fn, item['lo']])
+        return core.ok(states=st[0], transitions=st[1], nontrivial=True, outcome=[fn, item['lo'], st[0]])
     if fn == 'extract_components':
         sizes = item['sizes']
         exp = set(itertools.product(*[range(s) for s in sizes]))
